@@ -9,6 +9,7 @@ import (
 	"log"
 	"os"
 	"path/filepath"
+	"reflect"
 	"sort"
 	"strings"
 
@@ -289,7 +290,7 @@ func runRuleguardEngine(ctx *linter.CheckerContext, f *ast.File, e *ruleguard.En
 		// TODO(quasilyte): investigate whether we should add a rule name as
 		// a message prefix here.
 		r := ruleguardReport{
-			pos:     data.Node.Pos(),
+			pos:     ruleguardReportPos(f, data),
 			message: data.Message,
 		}
 		fix := data.Suggestion
@@ -320,6 +321,31 @@ func runRuleguardEngine(ctx *linter.CheckerContext, f *ast.File, e *ruleguard.En
 			ctx.WarnWithPos(report.pos, "%s", report.message)
 		}
 	}
+}
+
+// ruleguardReportPos returns the position a rule report is attached to.
+//
+// A rule can name a report location that matched nothing: At($args)
+// with an empty variadic match, or At($x) where $x belongs to another
+// pattern alternative. Such a node is nil or an empty node list, and asking
+// it for a position panics; fall back to the enclosing function or the file.
+func ruleguardReportPos(f *ast.File, data *ruleguard.ReportData) token.Pos {
+	switch n := data.Node.(type) {
+	case nil:
+		// Fallback below.
+	case interface{ Len() int }:
+		if n.Len() != 0 {
+			return data.Node.Pos()
+		}
+	default:
+		if v := reflect.ValueOf(data.Node); v.Kind() != reflect.Ptr || !v.IsNil() {
+			return data.Node.Pos()
+		}
+	}
+	if data.Func != nil {
+		return data.Func.Pos()
+	}
+	return f.Pos()
 }
 
 func debugPrint(s string) {
